@@ -109,6 +109,7 @@ import (
 	"os"
 	"strconv"
 	"strings"
+	"time"
 
 	"ws/vh"
 %(imports)s
@@ -212,7 +213,18 @@ func main() {
 	for {
 		line, err := in.ReadString('\n')
 		if len(line) > 0 {
-			fmt.Fprintln(out, run(strings.TrimRight(line, "\n")))
+			// an op that does not return (a parser looping on a conflicted grammar, say) cannot be
+			// interrupted: report it, flush, and leave; the harness restarts the driver after it
+			done := make(chan string, 1)
+			go func() { done <- run(strings.TrimRight(line, "\n")) }()
+			select {
+			case r := <-done:
+				fmt.Fprintln(out, r)
+			case <-time.After(2 * time.Second):
+				fmt.Fprintln(out, "hang")
+				out.Flush()
+				os.Exit(3)
+			}
 		}
 		if err != nil {
 			break
@@ -652,9 +664,35 @@ class Batch:
         return bad
 
     def run(self, lines, timeout=1200, env=None):
-        rc, out, err = C.run_lines(self.exe, lines, timeout, env=env)
-        if len(out) != len(lines):
-            raise C.BuildError("batch driver produced %d lines for %d ops (rc=%d): %s" % (len(out), len(lines), rc, err[-800:]))
+        """feed op lines; an op that hangs (driver exits with status 3 after printing `hang`) or kills
+        the driver (memory) is reported as `hang` and the driver is restarted on the remaining ops"""
+        import resource
+
+        def limit():
+            resource.setrlimit(resource.RLIMIT_AS, (12 << 30, 12 << 30))
+        out = []
+        rest = list(lines)
+        restarts = 0
+        while rest:
+            p = subprocess.run([self.exe], input="\n".join(rest) + "\n", stdout=subprocess.PIPE, stderr=subprocess.PIPE,
+                               text=True, timeout=timeout, env=env, preexec_fn=limit)
+            got = p.stdout.split("\n")
+            if got and got[-1] == "":
+                got.pop()
+            if len(got) == len(rest):
+                out += got
+                break
+            restarts += 1
+            if restarts > 200:
+                raise C.BuildError("batch driver keeps dying: rc=%d %s" % (p.returncode, p.stderr[-500:]))
+            if p.returncode == 3 and got and got[-1] == "hang":
+                out += got
+                rest = rest[len(got):]
+            else:
+                # crashed (killed / out of memory) while working on op number len(got)
+                out += got + ["hang"]
+                rest = rest[len(got) + 1:]
+        self.restarts = getattr(self, "restarts", 0) + restarts
         return out
 
     def close(self):
